@@ -56,7 +56,10 @@ class Sym:
             x, y = args
             self.lfact(None, z3.And(z3.Implies(z3.Or(x == 0, y == 0), r == 0), z3.Implies(x == 1, r == y), z3.Implies(y == 1, r == x),
                                        z3.Implies(z3.And(x >= 0, y >= 0), r >= 0), z3.Implies(z3.And(x <= 0, y <= 0), r >= 0),
-                                       z3.Implies(z3.And(x >= 0, y <= 0), r <= 0), z3.Implies(z3.And(x <= 0, y >= 0), r <= 0)))
+                                       z3.Implies(z3.And(x >= 0, y <= 0), r <= 0), z3.Implies(z3.And(x <= 0, y >= 0), r <= 0),
+                                       # monotonicity of multiplication instantiated for the constants 255 and 1 (channel / alpha ranges)
+                                       z3.Implies(z3.And(x <= 255, y >= 0), r <= 255 * y), z3.Implies(z3.And(y <= 255, x >= 0), r <= 255 * x),
+                                       z3.Implies(z3.And(x <= 1, y >= 0), r <= y), z3.Implies(z3.And(y <= 1, x >= 0), r <= x)))
         if name == 'pow' and len(args) == 2:
             x, y = args
             self.lfact(None, z3.And(z3.Implies(x == 1, r == 1), z3.Implies(z3.And(x == 0, y > 0), r == 0), z3.Implies(x >= 0, r >= 0),
@@ -64,7 +67,16 @@ class Sym:
         return r
 
     def opaque_int(self, name, args):
-        return self.app('i_' + name, list(args), I)
+        r = self.app('i_' + name, list(args), I)
+        if name == 'mul' and len(args) == 2:
+            x, y = args
+            if not x.eq(y): self.lfact(None, r == self.app('i_' + name, [y, x], I))
+            self.lfact(None, z3.And(z3.Implies(z3.Or(x == 0, y == 0), r == 0), z3.Implies(x == 1, r == y), z3.Implies(y == 1, r == x),
+                                    z3.Implies(z3.And(x >= 0, y >= 0), r >= 0), z3.Implies(z3.And(x <= 0, y <= 0), r >= 0),
+                                    z3.Implies(z3.And(x >= 0, y <= 0), r <= 0), z3.Implies(z3.And(x <= 0, y >= 0), r <= 0),
+                                    z3.Implies(z3.And(x <= 255, y >= 0), r <= 255 * y), z3.Implies(z3.And(y <= 255, x >= 0), r <= 255 * x),
+                                    z3.Implies(z3.And(x <= 1, y >= 0), r <= y), z3.Implies(z3.And(y <= 1, x >= 0), r <= x)))
+        return r
 
     def const_real(self, name):
         if name == 'pi': return self.pi
@@ -231,6 +243,8 @@ class Sym:
         return VStr(code=fresh(I, 'strof'), sym=('strof', v))
     def exc_message(self, e):
         if isinstance(e.msg, VStr): return e.msg
+        # raised by a builtin (float('x'), int('g', 16), unpacking): CPython's own message - assumed non-empty;
+        # raised by a callee under contract: the callee's obligation `error_message_nonempty` covers it
         return VStr(code=fresh(I, 'excmsg'), sym=('excmsg', e))
 
     def str_nonempty(self, v):
@@ -239,7 +253,7 @@ class Sym:
             k = v.sym[0]
             if k in ('rgbstr', 'fmt', 'hex6'): return self.true       # 'rgb(…)' / '#rrggbb' / C06 lemma: every formatted value is non-empty
             if k == 'fstr' and any(isinstance(x, VStr) and x.lit for x in v.sym[1]): return self.true
-            if k == 'strof': return self.true
+            if k in ('strof', 'excmsg'): return self.true
         return self.app('NONEMPTY', [v.code], B)
     def str_eq(self, a, b): return a.code == b.code
     def str_len(self, v):
